@@ -233,3 +233,6 @@ def run(col, configs, tier):
         guarded(col, dispatch.rule_dispatch_table, facts)
         from rules import syntax
         guarded(col, syntax.rule_getters, facts)
+        # the `format` build adds a required-digits test to the integer parsers' Ok exits: it must be on the
+        # digit count itself, or `format` changes what STANDARD input is accepted
+        guarded(col, X.rule_ok_requires_digits, facts)
